@@ -268,21 +268,226 @@ def consistency(ctx):
             ctx.check(m, '%s: %s**2 + %s**2 == %s**2 * %s * %s / %s' % (name, u, v, M, g, p, r),
                       zero(U ** 2 + V ** 2 - Mv ** 2 * Gv * P / R, sy),
                       '%s: the velocity components are not Mach number times sound speed along the flow angle' % name)
-    # star state: local tuple assignments  u*, v* = sqrt(g p*/r*) * M* * array([cos(cd), sin(cd)])
+    star_state(ctx)
+
+
+def _leaves_zero(ev, sy, x):
+    from ..nf import leaves as _leaves
+    if x is NAN:
+        return False
+    for conds, leaf in _leaves(x):
+        if leaf is NAN or isinstance(leaf, Struct):
+            return False
+        if isinstance(leaf, Mono) and leaf.coef == 0:
+            continue
+        try:
+            if not zero(sy.conv(leaf), sy):
+                return False
+        except (TypeError, Unsupported):
+            return False
+    return True
+
+
+def star_state(ctx):
+    """R19.4 on set_starstate_values, executed for a symbolic instance (unknown morphology, star pressure p*, contact
+    angle cd): on every branch, (u*, v*) of a side == sqrt(g p*/r*) M* (cos cd, sin cd) with that side's gamma, and
+    (r*, M*) of a side come from expansion_states / compression_states applied to THAT side's state."""
     m = ctx.method('set_starstate_values')
-    n = 0
-    for st in ast.walk(m.node):
-        if isinstance(st, ast.Assign) and isinstance(st.targets[0], ast.Tuple) and len(st.targets[0].elts) == 2 \
-                and all(isinstance(e, ast.Name) and e.id.endswith('_star') and e.id[0] in 'uv' for e in st.targets[0].elts):
-            txt = ast.unparse(st.value).replace(' ', '')
-            side = st.targets[0].elts[0].id[1]
-            want = 'sqrt(g%s*p_star/r%s_star)*M%s_star*array([cos(cd_angle),sin(cd_angle)])' % (side, side, side)
-            n += 1
-            ctx.check(m, 'star state %s: (u, v) = c M (cos, sin)(contact angle) with c^2 = g p*/r*' % side, txt == want,
-                      'set_starstate_values: the star-state velocity of side %s is not sound speed times Mach number along '
-                      'the contact direction: %s' % (side, ast.unparse(st.value)[:120]), at=st)
-    if n != 2:
-        raise AnalysisError('set_starstate_values: star-state velocity assignments not found (%d)' % n)
+    b, inst = _symbolic_instance(ctx)
+    run_method(ctx, 'set_initial_state_values', [], b, inst)
+    h = b.heap[inst.val.oid]
+    h['pressure_solution'] = b.mk('param', 'pstar')
+    h['deflection_angle_solution'] = b.mk('param', 'cd')
+    h['morphology'] = b.mk('param', 'morphology')
+    run_method(ctx, 'set_starstate_values', [], b, inst)
+    h = b.heap[inst.val.oid]
+    ev = NFEval([])
+    sy = NFSym(ev)
+    ps, cd = ev.atom('param:pstar'), ev.atom('param:cd')
+    for side, k, idx, state in (('bottom', 'B', 0, 'bottom_state'), ('top', 'T', 4, 'top_state')):
+        need = ['u%s_star' % k, 'v%s_star' % k, 'r%s_star' % k, 'M%s_star' % k]
+        if any(a not in h for a in need):
+            raise AnalysisError('set_starstate_values no longer sets %s' % [a for a in need if a not in h])
+        U, V, R, M = (ev.nf(h[a]) for a in need)
+        g = ev.atom('param:%s4' % k)
+        cM = ev.mul(ev.power(ev.mul(ev.mul(g, ps), ev.power(R, ev.S.F(-1))), ev.S.F(1) / 2), M)
+        okU = _leaves_zero(ev, sy, ev.add(U, ev.mul(cM, ev.atom('numpy.cos(%s)' % cd.key())), -1))
+        okV = _leaves_zero(ev, sy, ev.add(V, ev.mul(cM, ev.atom('numpy.sin(%s)' % cd.key())), -1))
+        ctx.check(m, 'star state %s: (u, v) = c M (cos, sin)(contact angle) with c^2 = g p*/r*' % k, okU and okV,
+                  'set_starstate_values: the star-state velocity of the %s side is not sound speed (gamma of that side, star pressure, '
+                  'star density of that side) times its star Mach number along the contact direction' % side,
+                  at=getattr(h[need[0]], 'origin', (None, None))[1])
+        # provenance of (r*, M*)
+        b.frame = Frame(m, ctx.mod, {'self': inst}, self_obj=inst, cls=ctx.ci)
+        ok = True
+        for j, attr in ((1, need[2]), (2, need[3])):
+            want = b.eval(ast.parse("self.expansion_states(self.pressure_solution, self.%s)[%d] if self.morphology[%d] == 'R' else "
+                                    "self.compression_states(self.pressure_solution, self.%s)[%d]" % (state, j, idx, state, j),
+                                    mode='eval').body)
+            got, wnf = ev.nf(h[attr]), ev.nf(want)
+            from ..nf import leaves as _leaves
+            for conds, leaf in _leaves(got):
+                if leaf is NAN:
+                    continue            # neither 'R' nor 'S': the attribute is not set
+                w = wnf
+                for ck, pol, _ in conds:
+                    w = ev.restrict(w, ck, pol)
+                if isinstance(w, PW) or w is NAN or not ev.equal(leaf, w):
+                    ok = False
+        ctx.check(m, 'star state %s: (r*, M*) from expansion_states / compression_states of the %s state at the star pressure' % (k, side),
+                  ok, 'set_starstate_values: the star density / Mach number of the %s side are not computed from the %s state (or not at '
+                  'the star pressure)' % (side, side), at=getattr(h[need[2]], 'origin', (None, None))[1])
+
+
+def _symbolic_instance(ctx):
+    b = Builder(ctx.model)
+    b.frame = Frame(None, ctx.mod, {}, None)
+    bs = b.mk('tuple', args=[b.mk('param', 'B%d' % i) for i in range(5)])
+    ts = b.mk('tuple', args=[b.mk('param', 'T%d' % i) for i in range(5)])
+    inst = b.symbolic_obj(ctx.ci, [], {'bottom_state': bs, 'top_state': ts})
+    return b, inst
+
+
+def _nf_equal(ev, sy, a, b_, positive=()):
+    if any(x is NAN or isinstance(x, (PW, Struct)) for x in (a, b_)):
+        return False
+    if ev.equal(a, b_):
+        return True
+    try:
+        return zero(sy.conv(ev.add(a, b_, -1)), sy, positive=positive)
+    except (TypeError, Unsupported):
+        return False
+
+
+def fans(ctx):
+    """R19.5: the state written for a point inside an expansion fan (assign_lineout_vals) is built from ONE side: the
+    side whose wave the enclosing branch tests (morphology[0]: bottom, morphology[4]: top).  With p the pressure
+    found for the point and `this_angle` the turning, for that side's (p0, r0, theta0, g):  p/r^g == p0/r0^g,
+    sie == p/r/(g-1), c^2 == g p/r, (u, v) == c M (cos, sin)(this_angle + theta0), and the stored row is
+    [p, r, sie, M, u, v]."""
+    m = ctx.method('assign_lineout_vals')
+    loops = [st for st in m.node.body if isinstance(st, ast.For)]
+    if len(loops) != 1:
+        raise AnalysisError('assign_lineout_vals no longer has one loop over the points')
+    loop = loops[0]
+    prologue = m.node.body[:m.node.body.index(loop)]
+    blocks = []
+    for top in loop.body:
+        if not (isinstance(top, ast.If) and isinstance(top.test, ast.Compare)):
+            continue
+        t = top.test.left
+        if not (isinstance(t, ast.Subscript) and src_of(t.value) == 'self.morphology' and isinstance(t.slice, ast.Constant)):
+            continue
+        side = {0: 'B', 4: 'T'}.get(t.slice.value)
+        for inner in ast.walk(top):
+            if isinstance(inner, ast.If):
+                for body in (inner.body,):
+                    calls = [c for s2 in body for c in ast.walk(s2) if isinstance(c, ast.Call) and src_of(c.func) == 'self.expansion_states'
+                             and isinstance(s2, ast.Assign) and isinstance(s2.targets[0], ast.Tuple)]
+                    if calls and side:
+                        blocks.append((side, inner, body))
+    if len(blocks) != 2 or {sd for sd, _, _ in blocks} != {'B', 'T'}:
+        raise AnalysisError('assign_lineout_vals: expected one fan block per side, found %s' % [sd for sd, _, _ in blocks])
+    roots = {}
+    signs = {}
+    for side, node, body in blocks:
+        b, inst = _symbolic_instance(ctx)
+        b.frame = Frame(m, ctx.mod, {'self': inst, 'xs': b.mk('param', 'xs'), 'ys': b.mk('param', 'ys')}, self_obj=inst, cls=ctx.ci)
+        for st in prologue:
+            b.exec_stmt(st)
+        loc = b.frame.locals
+        pf, ta = b.mk('param', 'pfan'), b.mk('param', 'turn')
+        pvar = None
+        stored = None
+        for st in body:
+            if isinstance(st, ast.Assign) and any(isinstance(c, ast.Call) and src_of(c.func).endswith('fsolve') for c in ast.walk(st.value)):
+                if isinstance(st.targets[0], ast.Name):
+                    pvar = st.targets[0].id
+                    loc[pvar] = pf
+                lams = [x for x in ast.walk(st.value) if isinstance(x, ast.Lambda) and len(x.args.args) == 1]
+                if len(lams) == 1:
+                    xname = lams[0].args.args[0].arg
+                    saved = loc.get(xname)
+                    loc[xname] = pf
+                    root_fn = b.eval(lams[0].body)
+                    d_side = b.eval(ast.parse('self.expansion_states(%s, self.%s)[0]'
+                                              % (xname, 'bottom_state' if side == 'B' else 'top_state'), mode='eval').body)
+                    if saved is None:
+                        loc.pop(xname, None)
+                    else:
+                        loc[xname] = saved
+                    roots[side] = (root_fn, d_side, ta, st)
+                continue
+            if isinstance(st, ast.Assign) and isinstance(st.targets[0], ast.Name) and pvar is None:
+                # the turning angle of this point: polar angle minus the edge of the fan
+                loc[st.targets[0].id] = ta
+                tname = st.targets[0].id
+                continue
+            if isinstance(st, ast.Assign) and isinstance(st.targets[0], ast.Subscript):
+                stored = st
+                continue
+            b.exec_stmt(st)
+        if pvar is None or stored is None or not isinstance(stored.value, ast.List) or len(stored.value.elts) != 6:
+            raise AnalysisError('assign_lineout_vals: fan block of side %s has an unexpected shape' % side)
+        row = [b.eval(e) for e in stored.value.elts]
+        ev = NFEval([])
+        sy = NFSym(ev)
+        if side not in roots:
+            raise AnalysisError('assign_lineout_vals: the pressure of a fan point is no longer the root of a lambda (side %s)' % side)
+        root_fn, d_side, tnode, rst = roots[side]
+        diff = ev.add(ev.nf(root_fn), ev.nf(d_side), -1)
+        sg = 1 if _nf_equal(ev, sy, diff, ev.nf(tnode)) else -1 if _nf_equal(ev, sy, diff, ev.mul(ev.num(-1), ev.nf(tnode))) else 0
+        signs[side] = sg
+        ctx.check(m, '%s fan: the pressure of a point is the root of  deflection(p; state of this side) +- turning'
+                  % ('bottom' if side == 'B' else 'top'), sg != 0,
+                  "assign_lineout_vals (%s fan): the pressure inside the fan is not found from the expansion relation of the state the "
+                  "fan belongs to (the root function is not expansion_states(p, %s)[0] +- this_angle)"
+                  % ('bottom' if side == 'B' else 'top', 'bottom_state' if side == 'B' else 'top_state'), at=rst)
+        P, R, SIE, M, U, V = (ev.nf(x) for x in row)
+        k = 'B' if side == 'B' else 'T'
+        p0, r0, th0, g = (ev.atom('param:%s%d' % (k, i)) for i in (0, 1, 3, 4))
+        name = '%s fan' % ('bottom' if side == 'B' else 'top')
+        what = "assign_lineout_vals (%s): " % name
+        # the stored pressure is the one the state was computed for
+        ctx.check(m, '%s: stored pressure is the pressure found for the point' % name, _nf_equal(ev, sy, P, ev.nf(pf)),
+                  what + 'the stored pressure is not the pressure the fan state was computed for', at=stored)
+        gexp = None
+        try:
+            gexp = ev.R.ratval(b.mk('param', '%s4' % k))
+        except Exception:
+            pass
+        # isentrope of this side
+        ev2 = NFEval(['%s4' % k])
+        sy2 = NFSym(ev2)
+        g2 = ev2.S.syms['%s4' % k]
+        P2, R2 = ev2.nf(row[0]), ev2.nf(row[1])
+        lhs = ev2.mul(P2, ev2.power(R2, -g2)) if not any(x is NAN or isinstance(x, (PW, Struct)) for x in (P2, R2)) else NAN
+        rhs = ev2.mul(ev2.atom('param:%s0' % k), ev2.power(ev2.atom('param:%s1' % k), -g2))
+        ctx.check(m, '%s: p / r**g == p0 / r0**g of the %s state' % (name, 'bottom' if side == 'B' else 'top'),
+                  lhs is not NAN and ev2.equal(lhs, rhs),
+                  what + 'the density inside the fan is not on the isentrope of the state the fan belongs to (state, gamma or '
+                  'pressure of the other side used)', at=node)
+        gm1 = ev.add(g, ev.num(1), -1)
+        ctx.check(m, '%s: sie == p / r / (g - 1)' % name,
+                  _nf_equal(ev, sy, SIE, ev.mul(ev.mul(P, ev.power(R, ev.S.F(-1))), ev.power(gm1, ev.S.F(-1)))),
+                  what + 'the specific internal energy inside the fan is not p/rho/(gamma-1) with the gamma of its side', at=node)
+        # velocity: magnitude c M with c^2 = g p / r, direction = turning + inflow angle of this side
+        from fractions import Fraction as _Fr
+        th_rad = ev.mul(ev.mul(th0, ev.atom('pi')), ev.num(_Fr(1, 180)))
+        arg = ev.add(ev.nf(ta), th_rad)
+        cM = ev.mul(ev.power(ev.mul(ev.mul(g, P), ev.power(R, ev.S.F(-1))), ev.S.F(1) / 2), M)
+        wantU = ev.mul(cM, ev.atom('numpy.cos(%s)' % arg.key()))
+        wantV = ev.mul(cM, ev.atom('numpy.sin(%s)' % arg.key()))
+        ctx.check(m, '%s: (u, v) == sqrt(g p / r) M (cos, sin)(turning + inflow angle of its side)' % name,
+                  _nf_equal(ev, sy, U, wantU) and _nf_equal(ev, sy, V, wantV),
+                  what + 'the velocity inside the fan is not sound speed times Mach number along (turning angle + inflow direction of '
+                  'the state the fan belongs to): u = %s' % (U.key()[:160] if U is not NAN and hasattr(U, 'key') else U), at=node)
+
+
+    ctx.check(m, 'the two fan blocks are mirror images: the turning enters the two root functions with opposite signs',
+              signs.get('B', 0) * signs.get('T', 0) == -1,
+              'assign_lineout_vals: the bottom and the top fan use the same sign between deflection and turning angle; one of the two '
+              'fans then turns the flow the wrong way (mirror symmetry)')
 
 
 def run(model, tier):
@@ -303,6 +508,7 @@ def run(model, tier):
     shocks(ctx)
     expansions(ctx)
     consistency(ctx)
+    fans(ctx)
     res.analysed.append('%s:%s' % (MOD, CLS))
     if res.obligations < 10:
         raise AnalysisError('only %d relations analysed (confirmed: 12)' % res.obligations)
